@@ -67,6 +67,7 @@ type Result struct {
 	Fires []Fire  // every rule firing, in order
 	// Flags about the run up to the end of Toks:
 	PopEmpty   bool // a @pop_mode ran on an empty stack (behaviour outside the properties)
+	NGInterplay bool // a non-greedy rule was complete while another rule was still alive (which of the two readings applies is left open by the properties)
 	EpsMatch   bool // some rule acted on an empty match
 	StuckAtEps bool // an empty match that neither consumed nor changed the mode: endless in any faithful implementation
 	PendingAtEOF bool // accumulated text pending when the input ended at a token boundary state
@@ -110,6 +111,11 @@ func (l *Lexer) Run(in []byte) *Result {
 			for i := range rules {
 				if rules[i].NonGreedy && l.Ctx.Nullable(ds[i]) {
 					stop = true
+					for j := range rules {
+						if j != i && !l.Ctx.IsEmpty(ds[j]) {
+							res.NGInterplay = true
+						}
+					}
 				}
 			}
 			if stop {
@@ -143,10 +149,11 @@ func (l *Lexer) Run(in []byte) *Result {
 		}
 		if win >= 0 && pos == off {
 			// An empty match is acted on only when it pops the mode and pushes
-			// none (each such step shrinks the mode stack); any other empty
-			// match would make no progress and counts as no match.
+			// none, and there is a mode to go back to (each such step shrinks
+			// the mode stack); any other empty match would make no progress and
+			// counts as no match.
 			res.EpsMatch = true
-			if a := rules[win].Act; !(a.Pop && a.Push < 0) {
+			if a := rules[win].Act; !(a.Pop && a.Push < 0) || len(stack) == 0 {
 				res.StuckAtEps = true
 				win = -1
 			}
